@@ -48,7 +48,7 @@ def queries(tier, kfs):
     for t in tabs:
         n, d = table_info(t)
         sm = c04.status_mask(t)
-        for bl, mk, pexp in ((sm, None, 1), (1 << (n // 2), 1 << (n - 1), 1)) + (() if quick else ((sm, None, 2), (0, None, 0))):
+        for bl, mk, pexp in ((sm, None, 1), (1 << (n // 2), 1 << (n - 1), 1)) + (() if quick else (((sm, None, 2),) if d <= 4 else ()) + ((0, None, 0),)):
             hd = dict(N=n, D=d, GRID=1, BLMASK=bl, USE_MASK=0 if mk is None else 1, TABLE='"%s.h"' % t, PEXP=pexp, ROUNDS=1)
             if mk is not None:
                 hd['MASKBITS'] = mk
